@@ -174,6 +174,10 @@ EXPECT = {('samples_helpers.py', None, '_custom_tbl_dtype_compare'): ([],
                                             '    write_table_hdf5(self.tbl, output, path=self._hdf5_path, compression=False, append=append, '
                                             "overwrite=overwrite, serialize_meta=True, metadata_conflicts='error', maxshape=(None,))"])}
 
+# the by-name call re-enters write_table_hdf5 without forwarding metadata_conflicts, so its DEFAULT decides what a conflicting append does
+DEFAULTS = {("samples_helpers.py", "write_table_hdf5"): ["None", "False", "False", "False", "False", "'error'"],
+            ("samples.py", "write"): ["False", "False"]}
+
 TEXT = """(* GENERATED by tools/py2v_write.py from thejoker/samples_helpers.py (write_table_hdf5) and thejoker/samples.py (JokerSamples.write,
    HDF5 branch: write_table_hdf5(tbl, output, path, append=append, overwrite=overwrite, serialize_meta=True, metadata_conflicts='error'))
    -- do not edit. *)
@@ -258,6 +262,9 @@ def main():
             got_args = [a.arg for a in fdef.args.args] + [a.arg for a in fdef.args.kwonlyargs] + ([fdef.args.kwarg.arg] if fdef.args.kwarg else [])
             if got_args != args:
                 raise Untranslatable(f"{rel}::{fname}: signature {got_args}")
+            got_defaults = [ast.unparse(d) for d in fdef.args.defaults]
+            if (rel, fname) in DEFAULTS and got_defaults != DEFAULTS[(rel, fname)]:
+                raise Untranslatable(f"{rel}::{fname}: argument defaults {got_defaults}, expected {DEFAULTS[(rel, fname)]}")
             got = body_src(fdef)
             if got != want:
                 k = next((i for i, (a, b) in enumerate(zip(got, want)) if a != b), min(len(got), len(want)))
